@@ -4,6 +4,7 @@
 \*   FAULT     0 | 1 storage writes may fail    PRE   activators that already own one active mapping
 \*   QUOTA     max active mappings per client   CLAIM / CRB   repaired design switches (FALSE FALSE = code as it was)
 \*   NODE2     processes calling through node n2      CLOCAL  TRUE: claim key routed to the node-local cache tier
+\*   SAME      activators submitting as a1's listen client   RECLAIM  design variant idempotent re-claim
 \*   VIEW      view (exhaustive) | gview (generation: ghosts hidden, hist hidden)
 CONSTANTS
   Acts = @@ACTS@@
@@ -16,6 +17,8 @@ CONSTANTS
   CreateRb = @@CRB@@
   Node2 = @@NODE2@@
   ClaimLocal = @@CLOCAL@@
+  SameAs = @@SAME@@
+  Reclaim = @@RECLAIM@@
   Emit = @@EMIT@@
 INIT Init
 NEXT Next
